@@ -1,4 +1,5 @@
 import HapModel.Drv.C14
+import HapModel.Drv.C18
 namespace Drv
 open Lean
 
@@ -6,6 +7,7 @@ def dispatch (op : String) (j : Json) : R Json :=
   match op with
   | "findCoord" => hFindCoord j
   | "noReplRun" => hNoReplRun j
+  | "karyogram" => hKaryogram j
   | _ => throw s!"unknown op {op}"
 
 end Drv
